@@ -94,7 +94,7 @@ func (v *Vue) evalVFor(ctx VueContext, node *html.Node, nodes []*html.Node, dept
 					continue
 				}
 				// Found the next element - check if it's v-else
-				if helpers.HasAttr(nextNode, "v-else") {
+				if helpers.HasAttr(nextNode, "v-else") && !onceAlreadyRendered(ctx, nextNode) {
 					// Evaluate the v-else node without cloning yet - let evaluateNodeAsElement handle it
 					vElseResult, err := v.evaluateNodeAsElement(ctx, nextNode, depth)
 					if err != nil {
